@@ -576,8 +576,11 @@ def auditPointers (d : Decoded) (modes : List Mode) (finMode : Mode) : Except St
   go d.names []
 
 /-- does the decoded message `d` (of `octets`) say exactly what the session state stands for? -/
-def checkSegment (s : AState) (d : Decoded) (size : Nat) (mac : Option (List UInt8)) :
+def checkSegment (ptrOnly : Bool) (s : AState) (d : Decoded) (size : Nat) (mac : Option (List UInt8)) :
     Except String Unit := do
+  if ptrOnly then
+    -- C13 alone: the pointer audit on the decoded message
+    return ← auditPointers d s.itemModes.reverse s.mode
   let m := d.msg
   let h := m.header
   if h.id ≠ s.hdr.id ∨ h.qr ≠ s.hdr.qr ∨ h.opcode ≠ s.hdr.opcode ∨ h.aa ≠ s.hdr.aa ∨ h.tc ≠ s.hdr.tc
@@ -611,49 +614,50 @@ def checkSegment (s : AState) (d : Decoded) (size : Nat) (mac : Option (List UIn
 /-- Walk through the calls of a session with the statuses reported for them.
     `msgs`: the finished messages of the prefixes that end before each `clearRrs` call, then the
     finished message of the whole session. -/
-def walk : AState → List SOp → List String → List Bytes → Option Decoded → Option (List UInt8) →
-    Except String Unit
+def walk (ptrOnly : Bool) : AState → List SOp → List String → List Bytes → Option Decoded →
+    Option (List UInt8) → Except String Unit
   | s, [], sts, msgs, d, mac =>
     match sts, msgs, d with
-    | ["ok"], [m], some d => checkSegment s d m.size mac
+    | ["ok"], [m], some d => checkSegment ptrOnly s d m.size mac
     | ["ok"], _, _ => throw "message list does not match the session"
     | _, _, _ => throw "finish did not succeed"
   | s, op :: ops, st :: sts, msgs, some d, mac =>
     match op with
     | .getters =>
-      if st == gettersStr s then walk s ops sts msgs (some d) mac
+      if ptrOnly || st == gettersStr s then walk ptrOnly s ops sts msgs (some d) mac
       else throw s!"getters report {st}, expected {gettersStr s}"
     | .clearRrs =>
       if st != "ok" then throw "clear_rrs failed" else
       match msgs with
       | m :: m2 :: rest => do
-        checkSegment s d m.size none
+        checkSegment ptrOnly s d m.size none
         match specDecodeMsg m2 with
         | none => throw "message does not decode"
         | some d2 =>
           let s' ← absOk s d2 .clearRrs
-          walk s' ops sts (m2 :: rest) (some d2) mac
+          walk ptrOnly s' ops sts (m2 :: rest) (some d2) mac
       | _ => throw "message list does not match the session"
     | _ =>
       if st == "ok" then do
         let s' ← absOk s d op
-        walk s' ops sts msgs (some d) mac
-      else if justified s op st then walk s ops sts msgs (some d) mac
+        walk ptrOnly s' ops sts msgs (some d) mac
+      else if ptrOnly || justified s op st then walk ptrOnly s ops sts msgs (some d) mac
       else throw s!"failure {st} is not justified (remaining space {remaining s})"
   | _, _, _, _, _, _ => throw "status list does not match the session"
 
 /-- The specification of a whole writer session (C12 + C13), evaluated on reported statuses and
     finished octets. Result `ok` or `viol:<reason>`. -/
 def checkSession (buflen limit : Nat) (mode : Mode) (ops : List SOp) (statuses : List String)
-    (msgs : List Bytes) (mac : Option (List UInt8)) : String :=
+    (msgs : List Bytes) (mac : Option (List UInt8)) (ptrOnly : Bool := false) : String :=
   let limit := min limit buflen
+  if statuses.contains "panic" then "viol:a call panicked" else
   match msgs with
   | [] => "viol:no message"
   | m :: _ =>
     match specDecodeMsg m with
     | none => "viol:message does not decode"
     | some d =>
-      match walk { mode := mode, buflen := buflen, limit := limit } ops statuses msgs (some d) mac with
+      match walk ptrOnly { mode := mode, buflen := buflen, limit := limit } ops statuses msgs (some d) mac with
       | .ok () => "ok"
       | .error e => "viol:" ++ e
 
